@@ -27,7 +27,9 @@ EXPLANATION = (
     "surface (decided by truth table, whatever the arrangement of guard clauses); R8 no process-wide table (memo of parsed names, cached "
     "symbol list) stands between a name and its decomposition (shared with C17.R3); R9 the symbol tables consulted are the configured ones, "
     "the defaults only when nothing at all is configured (shared with C01.R6); R10 every entry point of Network that parses names installs both of "
-    "its own symbol lists first, unconditionally (shared with C17.R3).")
+    "its own symbol lists first, unconditionally (shared with C17.R3); R11 the symbol tables hold the caller's symbols verbatim: every value a method of "
+    "Species stores into _known_elements / _known_pseudoelements from one of its parameters is an element of that parameter untouched (the tokenizer "
+    "searches the entries as patterns but recognises a match by comparing its TEXT with the entries).")
 ASSUMPTIONS = [
     "the composition a given name decodes to, the pairing of a count with the symbol before it, mass numbers (data tables), the gas-phase counterpart and the behaviour of "
     "`re` on a given alphabet are NOT decided: this check decides necessary structural conditions of the tokenizer, not its results",
@@ -61,6 +63,7 @@ def check(ctx):
     from .c04 import _r6 as table_accumulates
     ctx.absorb(table_accumulates, "R5", only=lambda o: o.outcome != "MISSING")
     _r7(ctx, pkg)
+    _r11(ctx, pkg, cname, cfn)
     # R8 the decomposition is a function of the name and the configured tables: no table shared by all Species (a memo of parsed
     # names, a cached symbol list) stands between them (shared with C17.R3 process-wide state discovery)
     from .c17 import discovered_state
@@ -87,6 +90,10 @@ def _tokenizer(pkg, cname):
             continue
         try:
             fn = pkg.expanded("Species", name, keep=(cname,))
+            # a scanner OBJECT that lives inside the tokenizer (a small class of the module holding the text and the matches) is the
+            # bundle of its fields: its methods are read in place
+            from ..normalize import inline_local_objects
+            fn = inline_local_objects(fn, lambda c: pkg.classes[c].node if c in pkg.classes and pkg.classes[c].file == SP and c != "Species" else None)
         except Exception:
             continue
         calls = [c for c in ast.walk(fn) if isinstance(c, ast.Call) and isinstance(c.func, ast.Attribute)]
@@ -144,8 +151,17 @@ def _r1_r2(ctx, fl, pfn, pname):
             for x in walk(f.value) if f.value else ():
                 if isinstance(x, tuple) and x and x[0] == "join" and x[1] == ("const", "|"):
                     r = _is_len_desc_sorted(x[2]) if x[2][0] == "call" else None
-                    ok = (r not in (None, "other", "unknown")) if ok is None else ok
-        if ok is None:
+                    # understood and wrong: sorted in another order, or the configured lists concatenated as they are; a list this
+                    # rule cannot trace (a parameter, an accumulator, a helper's result) is not read
+                    if r not in (None, "other", "unknown"):
+                        ok = True if ok is None else ok
+                    elif r == "other" or (r is None and simp(x[2])[0] in ("binop", "list") and not any(y[0] in ("call", "meth", "acc") for y in walk(simp(x[2])) if isinstance(y, tuple) and y)):
+                        ok = False
+                    elif ok is None:
+                        ok = "unread"
+        if ok == "unread":
+            ctx.unrec("R1", f"{pname}:alternation order", W, "the symbols are joined into one alternation, but the order of the joined list is not read")
+        elif ok is None:
             ctx.unrec("R1", f"{pname}:scan", W, "the tokenizer is not a per-symbol regular-expression scan nor an alternation of the symbols: longest-match discipline not decidable")
         else:
             ctx.check(ok, "R1", f"{pname}:alternation order", W, "the alternation lists the symbols longest first" if ok else
@@ -157,8 +173,19 @@ def _r1_r2(ctx, fl, pfn, pname):
     key = f"{pname}:symbols longest first"
     where = (SP, sym_loop.line)
     if r is None:
-        plain = it[0] in ("binop", "param", "attr", "list") or (it[0] == "call" and it[1] == ("global", "list"))
-        if plain:
+        plain = it[0] in ("binop", "attr", "list") or (it[0] == "call" and it[1] == ("global", "list"))
+        if it[0] == "param":
+            # the list is HANDED to the tokenizer: the order is the caller's business -- every call site inside the class passes
+            # sorted(.., key=len, reverse=True) (ok), or some call site passes the configured lists as they are (wrong)
+            verdicts = _param_order(ctx, pfn, pname, it[1])
+            if verdicts and all(v is True for v in verdicts):
+                ctx.ok("R1", key, where, "symbols are tried longest first (sorted by the callers that hand the list over)")
+            elif any(v is False for v in verdicts):
+                ctx.bad("R1", key, where, "the symbols are tried in the order of the list a caller hands over unsorted: a short symbol listed before a longer one that contains it "
+                        "(S before Si, H before He) claims its characters first", expected="sorted(symbols, key=len, reverse=True)", found=show(it)[:100])
+            else:
+                ctx.unrec("R1", key, where, f"the symbol list is a parameter (`{it[1]}`) and the order its callers establish is not read")
+        elif plain:
             ctx.bad("R1", key, where, "the symbols are tried in the order of the configured lists (" + show(it)[:80] + "): a short symbol listed before a longer one that contains it "
                     "(S before Si, H before He, C before Cl) claims its characters first -- Si is read as S + i", expected="sorted(symbols, key=len, reverse=True)", found=show(it)[:100])
         else:
@@ -223,6 +250,34 @@ def _r1_r2(ctx, fl, pfn, pname):
                   "text between two symbols (counts) is cut at the wrong places", expected="text[:start] + ' ' * (end - start) + text[end:]", found=show(simp(v))[:120])
 
 
+def _param_order(ctx, pfn, pname, param):
+    """[True | False | None] per call site of the tokenizer inside Species: the argument bound to `param` is sorted longest first /
+    is a plain concatenation of the configured lists / is not read"""
+    pkg = package(ctx.tree)
+    ci = pkg.cls("Species")
+    params = [a.arg for a in pfn.args.args]
+    if param not in params:
+        return []
+    pos = params.index(param) - 1          # without self
+    out = []
+    for mname, fn in ci.methods.items():
+        if mname == pname or not isinstance(fn, ast.FunctionDef):
+            continue
+        if not any(isinstance(c, ast.Call) and isinstance(c.func, ast.Attribute) and c.func.attr == pname for c in ast.walk(fn)):
+            continue
+        fl = Flow(fn, SP)
+        for f in fl.facts:
+            if f.kind == "call" and f.target == pname and f.value is not None and f.value[0] == "meth":
+                a = dict(f.value[4]).get(param) if param in dict(f.value[4]) else (f.value[3][pos] if 0 <= pos < len(f.value[3]) else None)
+                if a is None:
+                    out.append(None)
+                    continue
+                r = _is_len_desc_sorted(a)
+                a = simp(a)
+                out.append(True if r not in (None, "other", "unknown") else False if r == "other" or (r is None and a[0] in ("binop", "list", "attr")) else None)
+    return out
+
+
 def _add_parts(v):
     if v[0] == "binop" and v[1] == "Add":
         return _add_parts(v[2]) + _add_parts(v[3])
@@ -261,6 +316,12 @@ def _r3(ctx, fl, pfn, pname):
         return
     neg = [f for f, g, pol in digit_guards if pol is False]
     raised = [f for f in neg if f.kind == "raise"]
+    # the non-digit arm hands the text to something this rule does not follow (a rejecting helper, an error collector): not read
+    handed = [f for f in neg if f.kind == "call" and f.value is not None and not (f.value[0] == "meth" and simp(f.value[1]) in (("global", "logging"), ("global", "logger"), ("global", "warnings")))
+              and f.target not in ("append", "warning", "info", "debug", "error", "warn", "print")]
+    if not raised and handed:
+        ctx.unrec("R3", key, (SP, handed[0].line), f"text that is not a number is handed to `{handed[0].target}`; whether that rejects it is not read")
+        return
     ctx.check(bool(raised), "R3", key, (SP, (raised or neg or [digit_guards[0][0]])[0].line),
               "text between two symbols that is not a number raises" if raised else
               "text between two symbols that is not a number does not raise: a name containing characters of no configured symbol (a typo, a symbol of another "
@@ -373,6 +434,148 @@ def _r5_r6(ctx, fl, pfn, pname, cname):
                       "a replacement table is applied to the name, but this count is recorded under the symbol as written in the input: HE+ is renamed He+ while its composition says {'HE': 1} -- "
                       "mass number and element totals look the symbol up in tables keyed by the standard spelling",
                       expected="self._replacement.get(symbol, symbol)", found=show(a0)[:100])
+
+
+# ------------------------------------------------------------------ R11  the symbol tables hold the caller's symbols verbatim
+
+TABLES = ("_known_elements", "_known_pseudoelements")
+
+
+def _identity_view(v, params):
+    """v is the caller's list itself or a copy with the same elements: P, list(P), tuple(P), P.copy(), P[:], [x for x in P [if ..]]"""
+    v = simp(v)
+    if v[0] == "param" and v[1] in params:
+        return True
+    if v[0] == "copy":
+        return _identity_view(v[1], params)
+    if v[0] == "call" and v[1] in (("global", "list"), ("global", "tuple")) and len(v[2]) == 1 and not v[3]:
+        return _identity_view(v[2][0], params)
+    if v[0] == "sub" and v[2] == ("slice", ("const", None), ("const", None), ("const", None)):
+        return _identity_view(v[1], params)
+    if v[0] == "comp" and v[1] in ("list", "gen") and len(v[3]) == 1 and v[3][0][0] == v[2] and v[2][0] == "bv":
+        return _identity_view(v[3][0][1], params)
+    return False
+
+
+def _r11(ctx, pkg, cname, cfn):
+    """The tokenizer searches every table entry as a PATTERN but recognises what it found by comparing the matched TEXT with the
+    table entries (`element in self._known_pseudoelements` in the count method).  For the two to agree a symbol must be stored
+    exactly as the caller gave it: every value a method of Species puts into _known_elements / _known_pseudoelements that comes
+    from one of its parameters is an element of that parameter, untouched (no escape / strip / case change / formatting on the way).
+    A helper of the class that fills a list it is HANDED (`cls._extend(names, cls._known_elements, ..)`) is read at its call sites:
+    what it does to its list parameter it does to the table passed for it."""
+    ci = pkg.cls("Species")
+    # premise: the count method classifies by membership of the matched text in a table
+    premise = any(isinstance(c, ast.Compare) and len(c.ops) == 1 and isinstance(c.ops[0], (ast.In, ast.NotIn)) and isinstance(c.comparators[0], ast.Attribute)
+                  and c.comparators[0].attr in TABLES for c in ast.walk(cfn))
+
+    def proc(name):
+        return pkg.resolve("Species", name)[1]
+
+    def params_of(fn):
+        static = any(ast.unparse(d) == "staticmethod" for d in fn.decorator_list)
+        return [a.arg for a in (fn.args.args if static else fn.args.args[1:])] + [a.arg for a in fn.args.kwonlyargs]
+
+    def status_of(how, v, params):
+        """('verbatim' | 'transformed' | 'unread', what is stored per element) for the value stored by append / extend / assignment"""
+        atoms = set()
+        if how in ("append", "insert"):
+            elt = v
+        elif v[0] == "comp" and v[1] in ("list", "gen") and len(v[3]) == 1 and _identity_view(v[3][0][1], params):
+            elt = v[2]
+            atoms = {x for x in walk(v[3][0][0]) if isinstance(x, tuple) and x and x[0] == "bv"}
+        elif _identity_view(v, params):
+            return "verbatim", v
+        else:
+            return "unread", v
+        atoms |= {x for x in walk(elt) if isinstance(x, tuple) and len(x) == 3 and x[0] == "elem" and _identity_view(x[1], params)}
+        return ("verbatim" if elt in atoms else "transformed" if atoms else "unread"), elt
+
+    flows, summaries = {}, {}
+    for mname, fn in sorted(ci.methods.items()):
+        if not isinstance(fn, ast.FunctionDef):
+            continue
+        params = set(params_of(fn))
+        if not params:
+            continue
+        try:
+            fl = Flow(fn, SP, resolver=proc, proc_resolver=proc)
+        except RecursionError:
+            continue
+        flows[mname] = (fn, fl, params)
+        out = []
+        for f in fl.facts:
+            dst = how = v = None
+            if f.kind == "call" and f.value is not None and f.value[0] == "meth" and f.value[2] in ("append", "extend", "insert", "__iadd__") and f.value[3]:
+                o = simp(f.value[1])
+                if o[0] == "attr" and o[2] in TABLES:
+                    dst, how, v = o[2], f.value[2], f.value[3][-1]
+                elif o[0] == "param" and o[1] in params:
+                    dst, how, v = o, f.value[2], f.value[3][-1]
+            elif f.kind == "attrstore" and f.target in TABLES and f.op in ("=", "Add"):
+                dst, how, v = f.target, "extend", f.value
+            elif f.kind in ("append", "mutate") and f.op in ("append", "extend", "insert") and f.value is not None and fl.assigns.get(f.target):
+                # a local that IS a table (`table = cls._known_elements`, also a helper's list parameter after the helper was put back)
+                o = simp(fl.assigns[f.target][0][0])
+                if len(fl.assigns[f.target]) == 1 and o[0] == "attr" and o[2] in TABLES:
+                    dst, how, v = o[2], f.op, (f.extra.get("args") or (f.value,))[-1]
+            if dst is None or v is None:
+                continue
+            v = simp(v)
+            src = {x[1] for x in walk(v) if isinstance(x, tuple) and len(x) == 2 and x[0] == "param" and x[1] in params}
+            if not src:
+                continue            # not the caller's symbols (the defaults, entries moved from the other table)
+            st, elt = status_of(how, v, params)
+            out.append({"dst": dst, "how": how, "status": st, "elt": elt, "line": f.line, "src": src})
+        summaries[mname] = out
+    n = 0
+
+    def report(key, line, table, st, elt):
+        if st == "verbatim":
+            ctx.ok("R11", key, (SP, line), "the symbol is stored exactly as the caller gave it")
+        elif st == "transformed" and premise:
+            ctx.bad("R11", key, (SP, line),
+                    f"the symbol is TRANSFORMED before it is stored in `{table}` ({show(elt)[:80]}): the tokenizer finds the symbol by searching the stored entry as a pattern, but "
+                    f"`{cname}` recognises what was found by comparing the matched text with the stored entries -- a symbol whose stored form differs from its text (`c-` stored as "
+                    "`c\\-`) is still matched and no longer recognised as a pseudo-element: the label is counted as an atom",
+                    expected=f"{table}.append(symbol) / .extend(symbols)", found=show(elt)[:120])
+        else:
+            ctx.unrec("R11", key, (SP, line), f"cannot tell whether the value stored in `{table}` is the caller's symbol: {show(elt)[:100]}")
+    for mname, (fn, fl, params) in flows.items():
+        for e in summaries[mname]:
+            if isinstance(e["dst"], str):
+                n += 1
+                report(f"Species.{mname}:{e['dst']}.{e['how']}:stored verbatim", e["line"], e["dst"], e["status"], e["elt"])
+        # helpers that fill a list they are handed, called with a table for that list
+        seen = set()
+        for f in fl.facts:
+            for c in (walk(f.value) if f.value is not None else ()):
+                if not (isinstance(c, tuple) and len(c) == 5 and c[0] == "meth" and c[2] in summaries and c[2] != mname and c[1] in (("param", "cls"), ("param", "self"), ("global", "Species"))):
+                    continue
+                hp = params_of(ci.methods[c[2]])
+                bound = dict(zip(hp, c[3]))
+                bound.update({k: v for k, v in c[4] if k in hp})
+                for e in summaries[c[2]]:
+                    if isinstance(e["dst"], str) or e["dst"][1] not in bound:
+                        continue
+                    t = simp(bound[e["dst"][1]])
+                    if not (t[0] == "attr" and t[2] in TABLES) or (c[2], t[2], e["line"], f.line) in seen:
+                        continue
+                    seen.add((c[2], t[2], e["line"], f.line))
+                    args = [simp(bound[q]) for q in e["src"] if q in bound]
+                    mine = [a for a in args if any(isinstance(x, tuple) and len(x) == 2 and x[0] == "param" and x[1] in params for x in walk(a))]
+                    if not mine:
+                        continue
+                    n += 1
+                    st = e["status"]
+                    elt = e["elt"]
+                    for a in mine:
+                        if not _identity_view(a, params):
+                            st2, elt2 = status_of("extend", a, params)
+                            if st2 != "verbatim":
+                                st, elt = (st2 if st != "transformed" else st), elt2
+                    report(f"Species.{mname}:{t[2]}.{e['how']} in {c[2]}:stored verbatim", f.line, t[2], st, elt)
+    ctx.floor("R11", "stores of caller-given symbols into the tables", n, 4, (SP, 0))
 
 
 # ------------------------------------------------------------------ R7  is_atom by truth table
@@ -516,4 +719,39 @@ MUTANTS += [
         {"file": SP, "old": _CLS_AT, "new": _CLS_AT + '    _plus_run = re.compile(r"\\+*$")\n    _minus_run = re.compile(r"-+")\n'},
         {"file": SP, "old": _CHARGE, "new": '        pcharge = "".join(self._plus_run.findall(self.name)).count("+")\n        ncharge = "".join(self._minus_run.findall(self.name)).count("-")'}],
      "rules": ["R4"]},
+]
+
+# ---- R11: the tables hold the caller's symbols verbatim ---------------------------------------------------------------------------
+_ADD_LOOP = "        for ele in elements:\n            if ele in cls._known_elements:\n                logging.warning(f\"{ele} exists in element list, skip!\")\n"
+_SET_PS = "        cls._known_pseudoelements.clear()\n        cls._known_pseudoelements.extend(pelements)\n"
+MUTANTS += [
+    {"name": "added-symbols-stored-escaped", "file": SP, "old": _ADD_LOOP, "new": _ADD_LOOP.replace("for ele in elements:", "for ele in map(re.escape, elements):"), "rules": ["R11"]},
+    {"name": "set-pseudo-symbols-stored-stripped-upper", "file": SP, "old": _SET_PS,
+     "new": "        cls._known_pseudoelements.clear()\n        cls._known_pseudoelements.extend([p.strip().upper() for p in pelements])\n", "rules": ["R11"]},
+]
+BENIGN += [
+    {"name": "set-pseudo-symbols-copied-first", "file": SP, "old": _SET_PS,
+     "new": "        fresh = [p for p in pelements]\n        cls._known_pseudoelements.clear()\n        cls._known_pseudoelements.extend(list(fresh))\n"},
+]
+
+# ---- the scan kept in a helper OBJECT local to the tokenizer (normalize.inline_local_objects) ---------------------------------------
+_SCANNER = ("class _Scan:\n    def __init__(self, text):\n        self.rest = text\n        self.hits = []\n\n    def _blank(self, lo, hi):\n        self.rest = self.rest[:lo] + %s + self.rest[hi:]\n\n"
+            "    def feed(self, pattern):\n        for hit in re.finditer(pattern, self.rest):\n            self.hits.append(hit)\n            self._blank(hit.start(), hit.end())\n\n"
+            "    def ordered(self):\n        return sorted(self.hits, key=lambda h: h.start())\n\n\n")
+_SCAN_OBJ = [{"file": SP, "old": _SCAN, "new": "        scan = _Scan(parsename)\n        for c in components:\n            scan.feed(c)\n        matches = scan.ordered()\n"}]
+BENIGN += [
+    {"name": "scan-kept-in-a-local-helper-object", "edits": _SCAN_OBJ + [{"file": SP, "old": "class Species:\n", "new": _SCANNER % "\" \" * (hi - lo)" + "class Species:\n"}]},
+]
+MUTANTS += [
+    {"name": "helper-object-cuts-the-span-out", "edits": _SCAN_OBJ + [{"file": SP, "old": "class Species:\n", "new": _SCANNER % "\"\"" + "class Species:\n"}], "rules": ["R2"]},
+    {"name": "helper-object-fed-unsorted-symbols", "edits": _SCAN_OBJ + [{"file": SP, "old": "class Species:\n", "new": _SCANNER % "\" \" * (hi - lo)" + "class Species:\n"},
+                                                                       {"file": SP, "old": "components = sorted(elements + symbols, key=len, reverse=True)", "new": "components = elements + symbols"}], "rules": ["R1"]},
+]
+_FILL = "    @staticmethod\n    def _fill(table, names) -> None:\n        table.clear()\n        table.extend(%s)\n\n    @classmethod\n    def reset(cls) -> None:\n"
+_FILL_EDITS = [{"file": SP, "old": _SET_PS, "new": "        cls._fill(cls._known_pseudoelements, pelements)\n"}]
+BENIGN += [
+    {"name": "table-filled-by-a-helper-handed-the-table", "edits": _FILL_EDITS + [{"file": SP, "old": "    @classmethod\n    def reset(cls) -> None:\n", "new": _FILL % "names"}]},
+]
+MUTANTS += [
+    {"name": "helper-handed-the-table-strips-the-symbols", "edits": _FILL_EDITS + [{"file": SP, "old": "    @classmethod\n    def reset(cls) -> None:\n", "new": _FILL % "[n.strip() for n in names]"}], "rules": ["R11"]},
 ]
